@@ -60,7 +60,9 @@ func hostileShard(ls *ipld.LinkSystem, depth int, maxLinks int) datamodel.Link {
 		}
 		switch c := verifrt.Choose(4); {
 		case c == 0 || depth == 0:
-			s.hash = storeRaw(ls, verifrt.Bytes(1))
+			// (the bytes of an entry's target are irrelevant to the shard logic; distinct
+			// concrete contents keep the model hasher from splitting on their equality)
+			s.hash = storeRaw(ls, []byte{byte(0x60 + 8*depth + i)})
 		case c == 1:
 			s.hash = hostileShard(ls, depth-1, 1)
 		case c == 2:
@@ -73,53 +75,79 @@ func hostileShard(ls *ipld.LinkSystem, depth int, maxLinks int) datamodel.Link {
 	return storeNode(ls, mkPBNode(true, shardData(fanout, bf, 0x22), links))
 }
 
+// hostileFile stores a File node with adversarial metadata: inline data or not,
+// FileSize absent or ANY value, 0..maxbs BlockSizes of ANY value (so their count may
+// be smaller or larger than the number of links), 1..2 links with Tsize absent or
+// ANY value, whose targets are raw blocks, dag-pb file leaves, missing blocks or
+// (depth > 0) further such nodes.
 func hostileFile(ls *ipld.LinkSystem, depth int) datamodel.Link {
-	small := verifrt.Param("small", 1) == 1
-	leafOnly := small && depth == 0
+	// slim=1 pins three dimensions (no inline data, two links, Tsize on both links or on
+	// neither) to keep the quick program small; slim=0 explores them
+	slim := verifrt.Param("slim", 0) == 1
 	d := pbField(nil, 1, 2)
-	if !leafOnly && verifrt.Choose(2) == 1 {
-		n := 1
-		if !small {
-			n = verifrt.Choose(3)
+	if !slim && verifrt.Choose(2) == 1 {
+		d = pbBytes(d, 2, verifrt.Bytes(1))
+	}
+	// vals=1: every size field is ANY 64-bit value; vals=0: the sizes are the plausible
+	// value 1 (each child holds one byte), so that only counts and kinds vary
+	anyVal := verifrt.Param("vals", 1) == 1
+	val := func() uint64 {
+		if anyVal {
+			return verifrt.U64()
 		}
-		d = pbBytes(d, 2, verifrt.Bytes(n))
+		return 1
 	}
-	if !leafOnly && verifrt.Choose(2) == 1 {
-		d = pbField(d, 3, verifrt.U64()) // FileSize: any value incl. "negative"
+	if verifrt.Choose(2) == 1 {
+		d = pbField(d, 3, val()) // FileSize: any value incl. "negative"
 	}
-	nbs := 0
-	if !leafOnly {
-		nbs = verifrt.Choose(3)
-	}
+	nbs := verifrt.Choose(verifrt.Param("maxbs", 2) + 1)
 	for i := 0; i < nbs; i++ {
-		d = pbField(d, 4, verifrt.U64())
+		d = pbField(d, 4, val())
 	}
-	nl := 1
-	if !leafOnly {
-		if small {
-			nl = 1 + verifrt.Choose(2)
-		} else {
-			nl = verifrt.Choose(3)
-		}
+	nl := 2
+	if !slim {
+		nl = 1 + verifrt.Choose(2)
+	}
+	allTsize := verifrt.Choose(2) == 1
+	// Tsize goes through the dag-pb codec's minimal varint writer, which would split on
+	// each of the 10 encoded lengths per value: ANY value of one of three magnitude
+	// classes (1, 5 or 9 encoded bytes; the same class for all links of a node) instead
+	tsizeLen := 1
+	if anyVal && allTsize {
+		tsizeLen = []int{1, 5, 9}[verifrt.Choose(3)]
 	}
 	var links []pbLinkSpec
 	for i := 0; i < nl; i++ {
 		var s pbLinkSpec
-		s.hasTsize = leafOnly || verifrt.Choose(2) == 1
-		if s.hasTsize {
-			s.tsize = verifrt.I64() & (1<<63 - 1) // the dag-pb codec cannot carry a negative Tsize
+		s.hasTsize = allTsize
+		if !slim && i > 0 {
+			s.hasTsize = verifrt.Choose(2) == 1
 		}
-		switch c := verifrt.Choose(3); {
-		case c == 0 || depth == 0:
-			n := 1
-			if !small {
-				n = verifrt.Choose(3)
+		if s.hasTsize {
+			v := val() & (1<<63 - 1) // the dag-pb codec cannot carry a negative Tsize
+			if anyVal {
+				verifrt.Assume(v < 1<<uint(7*tsizeLen) && (tsizeLen == 1 || v >= 1<<uint(7*(tsizeLen-1))))
 			}
-			s.hash = storeRaw(ls, verifrt.Bytes(n))
-		case c == 1:
-			s.hash = hostileFile(ls, depth-1)
-		default:
+			s.tsize = int64(v)
+		}
+		kinds := 3
+		if depth > 0 {
+			kinds = 4
+		}
+		kind := verifrt.Param("kind", -1) // >= 0: all children of that kind
+		if kind < 0 {
+			kind = verifrt.Choose(kinds)
+		}
+		switch kind {
+		case 0:
+			s.hash = storeRaw(ls, verifrt.Bytes(1))
+		case 1: // dag-pb file leaf with one inline byte
+			leaf := pbBytes(pbField(nil, 1, 2), 2, verifrt.Bytes(1))
+			s.hash = storeNode(ls, mkPBNode(true, leaf, nil))
+		case 2:
 			s.hash = fakeLink(50 + i)
+		default:
+			s.hash = hostileFile(ls, depth-1)
 		}
 		links = append(links, s)
 	}
@@ -198,7 +226,7 @@ func VerifHostileFile() {
 	st := verifmodel.NewStore()
 	ls := st.LinkSystem()
 	unixfsnode.AddUnixFSReificationToLinkSystem(ls)
-	lnk := hostileFile(ls, verifrt.Param("depth", 1))
+	lnk := hostileFile(ls, verifrt.Param("depth", 0))
 	root, err := ls.Load(ipld.LinkContext{}, lnk, protoFor(lnk))
 	verifrt.Assert(err == nil, "harness:root-loads")
 	var node datamodel.Node
@@ -222,7 +250,8 @@ func VerifHostileFile() {
 	} else {
 		var rs io.ReadSeeker
 		guarded("aslargebytes", func() { rs, _ = lb.AsLargeBytes() })
-		off := int64(verifrt.IntRange(-(1 << 40), 1<<40))
+		rng := verifrt.Param("offrange", 1<<40)
+		off := int64(verifrt.IntRange(-rng, rng))
 		whence := verifrt.Choose(3)
 		guarded("seek", func() { _, _ = rs.Seek(off, whence) })
 		buf := make([]byte, 2)
